@@ -575,7 +575,7 @@ Holds(c, r) ==
       [] c = "add_in_place" ->
             IsInst(Arg(r).cls, Recv(r).cls) =>
                 /\ r.post[ev.recv].cls = Recv(r).cls /\ MetaKeys(r.post[ev.recv]) = MetaKeys(Recv(r))
-                /\ (ev.arg # ev.recv => r.post[ev.arg] = Arg(r))
+                /\ (r.al[ev.arg] # r.al[ev.recv] => r.post[ev.arg] = Arg(r))     \* (two names may be bound to one object)
       [] c = "concat_rows" ->
             (* concat: "Concatenate several GenomicArrays, keeping this array's metadata. This array's data table *)
             (* is not implicitly included in the result."                                                         *)
@@ -590,8 +590,8 @@ Holds(c, r) ==
       [] c = "copy_independent" ->
             (* copy: "independent": changing one of the two in place never changes the other *)
             \A pr \in r.copies :
-                /\ (pr[1] = ev.recv /\ pr[2] \in DOMAIN r.pre) => r.post[pr[2]] = r.pre[pr[2]]
-                /\ (pr[2] = ev.recv /\ pr[1] \in DOMAIN r.pre) => r.post[pr[1]] = r.pre[pr[1]]
+                /\ (r.al[pr[1]] = r.al[ev.recv] /\ r.al[pr[2]] # r.al[ev.recv]) => r.post[pr[2]] = r.pre[pr[2]]
+                /\ (r.al[pr[2]] = r.al[ev.recv] /\ r.al[pr[1]] # r.al[ev.recv]) => r.post[pr[1]] = r.pre[pr[1]]
       [] c = "new_object_receiver_untouched" ->
             (* copy: "independent copy"; add_columns: "Add the given columns to a copy of this GenomicArray";     *)
             (* drop_extra_columns: "A new copy with only the minimal set of columns"                              *)
